@@ -334,6 +334,50 @@ def binclude_big_cases():
             yield c
 
 
+def longline_cases():
+    """body lines whose expansion is as long as the line buffers are (1024 characters and the sizes they grow to), one shorter
+    and one longer: the expansion is the same text as the hand-written line"""
+    for wrap in ('macro', 'irp'):
+        for total in list(range(1018, 1030)) + list(range(1148, 1156)) + [1279, 1280, 1281, 2047, 2048, 2049]:
+            # the expanded line is  <blank>dw <expr>,4660  with <expr> = 1+1+...+1  (a blank: TABs of a stored body line are expanded)
+            fixed = len(' dw ') + len(',4660')
+            n = (total - fixed + 1) // 2          # ones
+            expr = '+'.join(['1'] * n)
+            line = ' dw ' + expr + ',4660'
+            if len(line) != total:
+                expr = '0' + expr          # one character more: 01+1+...
+                line = ' dw ' + expr + ',4660'
+                if len(line) != total:
+                    continue
+            if wrap == 'macro':
+                prog = ['m\tmacro P1', ' dw P1,4660', '\tendm', '\tm ' + expr, '\tdb 9']
+            else:
+                prog = ['\tirp P1,' + expr, ' dw P1,4660', '\tendm', '\tdb 9']
+            yield pair(prog, [line, '\tdb 9'], 'expansion-as-long-as-the-line-buffer/%s' % wrap)
+
+
+def globalsymbols_cases():
+    """a repetition with {GLOBALSYMBOLS} (its labels are not private) inside a body whose labels are: when the inner construct
+    ends, the outer body's label scope is still the outer body's - labels behind the inner ENDM stay private per expansion"""
+    inners = {'rept': ['\trept 2,{GLOBALSYMBOLS}', '\tdb 3', '\tendm'], 'irp': ['\tirp Q,{GLOBALSYMBOLS},4,5', '\tdb Q', '\tendm'],
+              'irpc': ['\tirpc Q,{GLOBALSYMBOLS},"67"', "\tdb 'Q'", '\tendm'],
+              'while': ['cnt\tset 0', '\twhile cnt<2,{GLOBALSYMBOLS}', '\tdb 8', 'cnt\tset cnt+1', '\tendm']}
+    hands = {'rept': ['\tdb 3', '\tdb 3'], 'irp': ['\tdb 4', '\tdb 5'], 'irpc': ["\tdb '6'", "\tdb '7'"], 'while': ['\tdb 8', '\tdb 8']}
+    for inner in sorted(inners):
+        for outer in ('macro', 'rept', 'irp'):
+            body = ['\tdw done'] + inners[inner] + ['done:\tdb 1', '\tdw done']
+            if outer == 'macro':
+                prog = ['m\tmacro'] + body + ['\tendm', '\tm', '\tm']
+            elif outer == 'rept':
+                prog = ['\trept 2'] + body + ['\tendm']
+            else:
+                prog = ['\tirp Z,1,2'] + body + ['\tendm']
+            hand = []
+            for k in (1, 2):
+                hand += ['\tdw done%d' % k] + hands[inner] + ['done%d:\tdb 1' % k, '\tdw done%d' % k]
+            yield pair(prog + ['\tdb 9'], hand + ['\tdb 9'], 'globalsymbols-construct-inside-a-private-body/%s-in-%s' % (inner, outer))
+
+
 def binclude_word_cases():
     """BINCLUDE on targets whose address unit holds two or four bytes: the file's bytes fill units (the last one padded with
     zeros), what follows continues at the next unit"""
@@ -380,7 +424,8 @@ def subspaces(tier):
             ('d:nesting-pairs', nesting_cases(2))]
     if not q:
         subs.append(('d:nesting-triples', nesting_cases(3)))
-    subs += [('e:binclude', list(binclude_cases()) + list(binclude_big_cases()) + list(binclude_word_cases())), ('f:side-effects-in-bodies', list(sideeffect_cases()))]
+    subs += [('e:binclude', list(binclude_cases()) + list(binclude_big_cases()) + list(binclude_word_cases())), ('f:side-effects-in-bodies', list(sideeffect_cases())),
+             ('g:expansions-at-line-buffer-sizes', list(longline_cases())), ('h:globalsymbols-inside-private-bodies', list(globalsymbols_cases()))]
     return subs
 
 
